@@ -720,6 +720,9 @@ func (r *webRun) newEchoApp() webApp {
 			godiecho.WithPanicHandler(func(ec echo.Context, v any) error {
 				if rec := r.rec(); rec != nil {
 					rec.panicH++
+					if rec.id%2 == 1 {
+						return echo.NewHTTPError(598) // the handler reports through its result
+					}
 				}
 				return ec.NoContent(598)
 			}),
@@ -850,6 +853,9 @@ func (r *webRun) newFiberApp() webApp {
 			godifiber.WithPanicHandler(func(fc *fiber.Ctx, v any) error {
 				if rec := r.rec(); rec != nil {
 					rec.panicH++
+					if rec.id%2 == 1 {
+						return fiber.NewError(598) // the handler reports through its result
+					}
 				}
 				return fc.SendStatus(598)
 			}),
@@ -1233,6 +1239,13 @@ func (r *webRun) judge(add func(rule, shape, f string, a ...any), out *RunOut) {
 					}
 					if c.CustomHandler && rec.panicH != 1 {
 						add("C16.handle", "panic-handler-count", "%s: recovery is enabled, panic handler ran %d times", name, rec.panicH)
+					}
+					// what the panic handler decided is what the client gets
+					if c.CustomHandler && rec.panicH == 1 && rec.status != 598 {
+						add("C16.handle", "panic-handler-result", "%s: the custom panic handler answered 598 (directly or through its result) but the response status is %d", name, rec.status)
+					}
+					if !c.CustomHandler && rec.status < 500 {
+						add("C16.handle", "panic-handler-result", "%s: the handler panicked and was recovered by the default panic handler but the response status is %d", name, rec.status)
 					}
 				} else {
 					if rec.outerPanic == nil {
